@@ -108,6 +108,38 @@ def run_on_one_object(rnd, n, kinds=None):
     return asyncio.run(go())
 
 
+def run_overlapping(rnd, n):
+    """two calls on ONE api object, the second made while the first is waiting for the device's answer to its login (a real StreamReader:
+    it refuses the late call's read).  The frame of the first call is still the frame of ITS arguments"""
+    import asyncio, time_machine
+    async def go():
+        cases = []; texts = []
+        for _ in range(n):
+            kind = rnd.choice([1, 2, 3, 5, 6, 8, 8]); t2 = kind in world.TYPE2_KINDS
+            a = world.rand_op_case(rnd, kind, "valid", True); b = world.rand_op_case(rnd, rnd.choice([kind, kind, rnd.choice([7, 8]) if t2 else rnd.choice([1, 2, 3, 5])]), "valid", True)
+            s = world.ScriptedApi(t2, a["id"], a["key"]); reader = asyncio.StreamReader(); s.api._reader = reader
+            now = a["now"]
+            with time_machine.travel(float(now) + (int(now) % 997) / 2000.0, tick=False):
+                ta = asyncio.ensure_future(world.call_op(s.api, kind, a["args"]))
+                await asyncio.sleep(0)
+                tb = asyncio.ensure_future(world.call_op(s.api, b["kind"], b["args"]))
+                for _ in range(3): await asyncio.sleep(0)
+                for r in a["replies"]:
+                    reader.feed_data(bytes.fromhex(r))
+                    for _ in range(6): await asyncio.sleep(0)
+                reader.feed_eof()
+                try: oa = world.show_response(kind, await asyncio.wait_for(ta, 5))
+                except Exception as e: oa = "exc:" + world.exc_name(e)
+                try: await asyncio.wait_for(tb, 5); ob = "returned"
+                except Exception as e: ob = "exc:" + world.exc_name(e)
+            fr = list(s.frames)
+            if len(fr) >= 2 and fr[1] == fr[0]: del fr[1]          # the late call's login frame (same identity, same second)
+            a["overlapped_by"] = {"kind": b["kind"], "args": b["args"], "outcome": ob}
+            cases.append(a); texts.append("".join(f + "|" for f in fr) + oa)
+        return cases, texts
+    return asyncio.run(go())
+
+
 def run(tier, rnd, out):
     corpus = lib.load_corpus("C02")
     if corpus: run_stream(out, "corpus", corpus, world.run_cases_fresh(corpus))
@@ -129,8 +161,14 @@ def run(tier, rnd, out):
     run_stream(out, "over-tcp-the-device-hangs-up-instead-of-answering-the-command", cs, asyncio.run(oc.run_tcp(cs)))
     cs, texts = run_on_one_object(rnd, 40 if tier == "quick" else 1500)
     run_stream(out, "sequences-on-one-object", cs, texts)
+    cs, texts = run_overlapping(rnd, 60 if tier == "quick" else 1500)
+    run_stream(out, "a-second-call-made-while-the-first-waits-for-the-login-answer", cs, texts)
     out.exhaustive = False
 
 
 def replay(rp, out):
-    c = rp["input"]; run_stream(out, rp.get("stream", "replay"), [c], world.run_cases_fresh([c]))
+    c = rp["input"]
+    if "overlapped_by" in c:
+        import random
+        cs, texts = run_overlapping(random.Random(int(rp.get("seed", 1))), 300); return run_stream(out, rp.get("stream", "replay"), cs, texts)
+    run_stream(out, rp.get("stream", "replay"), [c], world.run_cases_fresh([c]))
